@@ -24,7 +24,52 @@ def build_kind_program(values, source):
         freg, _ = make_registry(sc)
         names = [ph.name for ph in sc.phases]
         return names, [list(ap.builders[n].statements) for n in names], freg
+    if source == "chain":
+        return chain(Tape(recorded=values))
     return adversarial(Tape(recorded=values))
+
+
+def chain(tape):
+    """One long chain of sums, each link known provisionally from its constant term before the
+    previous link is known: x0 <- base; x1 <- x0 + c; ... ; the kind of every link is the base's.
+    Presented (after permutation) in any order, so some presentations resolve one link per sweep."""
+    import dagrt.codegen.fortran as f
+    from dagrt.function_registry import base_function_registry, register_ode_rhs
+    from dagrt.language import CodeBuilder
+    freg = register_ode_rhs(base_function_registry, "y", identifier="<func>f", input_names=("y",))
+    freg = freg.register_codegen("<func>f", "fortran", f.CallCode("\n    ${result} = -2*${y}\n    "))
+    n = 6 + tape.draw(10, "chainlen")
+    base = tape.draw(4, "chainbase")
+    with CodeBuilder("main") as cb:
+        cb("<state>y", "<state>y + <dt>*<func>f(<t>, <state>y)")
+        if base == 0:
+            cb("x0", 1j)
+        elif base == 1:
+            cb("x0", "<func>f(<t>, <state>y)")
+        elif base == 2:
+            cb("x0", "`<builtin>array`(3)")
+        else:
+            cb("x0", "2.5")
+        for i in range(1, n):
+            form = tape.draw(4, "linkform")
+            prev = "x%d" % (i - 1)
+            if form == 0:
+                cb("x%d" % i, "%s + 1" % prev)
+            elif form == 1:
+                cb("x%d" % i, "2 + %s" % prev)
+            elif form == 2:
+                cb("x%d" % i, "%s + <dt>" % prev)
+            else:
+                # a call whose result kind follows its argument's, in the middle of the chain
+                cb("x%d" % i, "`<builtin>elementwise_abs`(%s)" % prev)
+        cb("last", "x%d" % (n - 1))
+        if base in (1, 2):
+            # a function of two links (its result kind is looked up while the links may be provisional)
+            # (links near the base: both orders -- arguments known / still provisional -- are likely)
+            i1, i2 = tape.draw(3, "dot1"), tape.draw(3, "dot2")
+            cb("dp", "`<builtin>dot_product`(x%d, x%d)" % (i1, i2))
+            cb("dp_copy", "dp")
+    return ["main"], [list(cb.statements)], freg
 
 
 def adversarial(tape):
@@ -72,8 +117,13 @@ def adversarial(tape):
                             a = ARR[tape.draw(len(ARR), "av")]
                             a2 = ARR[tape.draw(len(ARR), "av2")]
                             a3 = ARR[tape.draw(len(ARR), "av3")]
-                            aform = tape.draw(5, "aform")
-                            if aform == 0:
+                            aform = tape.draw(7, "aform")
+                            if aform == 5:
+                                # result kind follows the argument's (which may still be provisional)
+                                cb(a, "`<builtin>elementwise_abs`(%s)" % a2)
+                            elif aform == 6:
+                                cb(a, "`<builtin>transpose`(%s, 1)" % a2)
+                            elif aform == 0:
                                 cb(a, "`<builtin>array`(3)")
                             elif aform == 1:
                                 # array sum with a (possibly complex) scalar factor: the kind of the sum
@@ -90,8 +140,10 @@ def adversarial(tape):
                         elif k == 4:
                             u = UT[tape.draw(len(UT), "uv")]
                             u2 = UT[tape.draw(len(UT), "uv2")]
-                            form = tape.draw(4, "uform")
-                            if form == 0:
+                            form = tape.draw(5, "uform")
+                            if form == 4:
+                                cb(u, "`<builtin>elementwise_abs`(%s)" % u2)
+                            elif form == 0:
                                 cb(u, "<func>f(<t>, %s)" % u2)
                             elif form == 1:
                                 cb(u, "%s + %s*%s" % (u2, s, UT[tape.draw(len(UT), "uv3")]))
@@ -104,7 +156,14 @@ def adversarial(tape):
                             cb(s, "`<builtin>norm_2`(%s)" % u)
                         elif k == 6:
                             a = ARR[tape.draw(len(ARR), "av")]
-                            cb(s, ["%s[1]" % a, "%s[i] + %s" % (a, s2), "`<builtin>len`(%s)" % a][tape.draw(3, "sform")])
+                            a2 = ARR[tape.draw(len(ARR), "av2")]
+                            sform = tape.draw(5, "sform")
+                            if sform == 3:
+                                # (a name that nothing else assigns: its kind is the function's answer alone)
+                                cb(["dp1", "dp2"][tape.draw(2, "dpname")], "`<builtin>dot_product`(%s, %s)" % (a, a2))
+                            else:
+                                cb(s, ["%s[1]" % a, "%s[i] + %s" % (a, s2), "`<builtin>len`(%s)" % a, None,
+                                       "`<builtin>elementwise_abs`(%s)" % s2][sform])
                         else:
                             # a loop counter that is also an ordinary variable
                             cb(s, "i + 1", loops=[("i", 0, 2)])
